@@ -307,6 +307,10 @@ def run(r):
             table_params = {("param", f"#{[x[0] for x in s.params].index(n_)}") for n_ in ("df", "df_old", "col_mapper") if n_ in [x[0] for x in s.params]}
             for g, pol in gl:
                 ps = {x for x in walk(g) if x[0] == "param"}
+                if head(g) == "cmp" and g[1] in ("in", "notin") and ps <= table_params and ((g[1] == "in") != pol):
+                    # the column is stored under the condition that it is NOT in the table
+                    rep.ob("C18-COLS", q, False, f"column {col} is rewritten where it is present", w, expected=f"if '{col}' in table.columns", found=f"{'' if pol else 'not '}{show(g, 60)}", key=f"presence guard {col}")
+                    break
                 plain = g == std or (ps <= table_params and not any(x[0] == "sub" or (x[0] == "attr" and x[2] in ("str", "dropna", "astype", "all", "any", "isna", "notna", "map", "apply", "values")) for x in walk(g)))
                 if not plain:
                     rep.require(False, f"{q}: the store into column {col} is guarded by {'' if pol else 'not '}{show(g, 70)}, a condition on options or cell contents; for which inputs the column is standardised cannot be decided [C18-COLS]")
@@ -340,6 +344,36 @@ def run(r):
         return head(t) == "call" and head(strip(t[1])) == "attr" and strip(t[1])[2] == "copy" and not t[2]
     rep.ob("C18-COLS", q, all(fresh_copy(l) for l in resl) and bool(resl), "the result is df.copy(), renamed by col_mapper when given (row count, order, index and other columns preserved)", where_of(r.P, s.func, s.func.node),
            expected="df.copy().rename(columns=col_mapper)", found="; ".join(show(l, 60) for l in resl[:2]), key="result table")
+    # the documented defaults (a call that names no option standardises, for humans, functional genes at gene level, lenient CDR3 rule, with warnings)
+    DEFAULTS = {"standardize": True, "species": "HomoSapiens", "tcr_enforce_functional": True, "tcr_precision": "gene", "mhc_precision": "gene",
+                "strict_cdr3_standardization": False, "suppress_warnings": False, "col_mapper": None, "df": None, "df_old": None}
+    for pname, pdef, _k in s.params:
+        if pname in DEFAULTS:
+            okd_ = pdef is not None and is_const(strip(pdef)) and strip(pdef)[2] == DEFAULTS[pname] and type(strip(pdef)[2]) is type(DEFAULTS[pname])
+            rep.ob("C18-OPT", q, okd_, f"option '{pname}' has its documented default", where_of(r.P, s.func, s.func.node), expected=f"{pname}={DEFAULTS[pname]!r}",
+                   found=f"{pname}={show(pdef, 30) if pdef is not None else '<required>'}", key=f"default {pname}")
+    # ... and renamed exactly when a col_mapper is given
+    from ..nnabs import lits as _lits2
+    cm = ("param", "col_mapper")
+    n_cm = 0
+    for g, leaf in leaves(lift_ite(strip_all(s.ret))):
+        if head(strip(leaf)) == "raise":
+            continue
+        given = None
+        for c_, pol_ in g:
+            for a_, p_ in _lits2(c_, pol_):
+                a_ = strip_all(a_)
+                if head(a_) == "cmp" and a_[2] == cm and a_[3] == NONE and a_[1] in ("is", "isnot", "==", "!="):
+                    given = (a_[1] in ("isnot", "!=")) == p_
+                elif a_ == cm:
+                    given = p_          # `if col_mapper:`
+        if given is None:
+            continue
+        n_cm += 1
+        renamed = any(head(x) == "call" and head(strip(x[1])) == "attr" and strip(x[1])[2] == "rename" and any(y == cm for y in walk(x)) for x in walk(strip_all(leaf)))
+        rep.ob("C18-COLS", q, renamed == given, "the columns are renamed by col_mapper exactly when one is given", where_of(r.P, s.func, s.func.node),
+               expected="rename(columns=col_mapper) iff col_mapper is not None", found=f"col_mapper {'given' if given else 'absent'}: {'renamed' if renamed else 'not renamed'}", key=f"rename when given {given}")
+    rep.require(n_cm >= 2, f"C18-COLS: the paths with and without col_mapper could not both be identified ({n_cm}); cannot decide")
     rep.floor("C18-OPT", 9)
     rep.floor("C18-COLS", 11)
     rep.floor("C18-PURE", 3)
